@@ -222,7 +222,7 @@ theorem evalList_cons_some {ρ : String → K} {e : Exp (Ext K)} {es : List (Exp
 /-- the specification of `linList`, from the specification of each operand. -/
 theorem specL_of : ∀ (es : List (Exp (Ext K))), (∀ e ∈ es, SpecHolds Src e) →
     ∀ (req : Req) (s : St (Ext K)) (ops : List (Exp (Ext K))) (s' : St (Ext K)),
-      StInv Src s → (∀ e ∈ es, ∀ x ∈ varsOf e, inScope s.domain x) → (∀ e ∈ es, DefinedE e) →
+      StInv Src s → (∀ e ∈ es, ∀ x ∈ varsOf e, inScope s.domain x) → (∀ e ∈ es, FinE e) →
       linList es req s = .ok (ops, s') →
       ∃ cs, ops = cs.map ctxToExp ∧ SpecL Src es req s cs s' := by
   intro es
